@@ -300,13 +300,15 @@ Section WithArith.
     unfold call_write. intros H.
     destruct (get (e_self e) (c_accts x)) as [s |] eqn:G; [| inv_pair; split; [lia | split; [auto | reflexivity]]].
     destruct v as [| v0 vt].
-    - break_match_hyp; inv_pair; [split; [lia | split; [auto | reflexivity]] |].
+    - cbv zeta in H. match type of H with (if ?c then _ else _) = _ => destruct c eqn:C end;
+        inv_pair; [split; [lia | split; [auto | reflexivity]] |].
       split; [| split].
       + rewrite (total_put_same_bal _ _ _ G); [lia | reflexivity].
       + intros F. unfold all_fp in *; cbn [c_accts].
         apply put_Forall; [intros; cbn [snd]; apply fp_ok_write_del; apply (get_Forall fp_ok _ _ _ F G) | assumption].
       + unfold rejected. destruct (al_get bytes_eqb k (a_storage s)); intros [R | [R | [R | [R | R]]]]; discriminate.
-    - break_match_hyp; inv_pair; [split; [lia | split; [auto | reflexivity]] |].
+    - cbv zeta in H. match type of H with (if ?c then _ else _) = _ => destruct c eqn:C end;
+        inv_pair; [split; [lia | split; [auto | reflexivity]] |].
       split; [| split].
       + rewrite (total_put_same_bal _ _ _ G); [lia | reflexivity].
       + intros F. unfold all_fp in *; cbn [c_accts].
@@ -327,7 +329,8 @@ Section WithArith.
       + intros F. unfold all_fp in *; cbn [c_accts].
         apply put_Forall; [intros; cbn [snd]; eapply fp_ok_look_upd; [apply (get_Forall fp_ok _ _ _ F G) | exact L] | assumption].
       + unfold rejected. intros [R | [R | [R | [R | R]]]]; discriminate.
-    - break_match_hyp; inv_pair; [split; [lia | split; [auto | reflexivity]] |].
+    - cbv zeta in H. match type of H with (if ?c then _ else _) = _ => destruct c eqn:C end;
+        inv_pair; [split; [lia | split; [auto | reflexivity]] |].
       split; [| split].
       + rewrite (total_put_same_bal _ _ _ G); [lia | reflexivity].
       + intros F. unfold all_fp in *; cbn [c_accts].
@@ -339,7 +342,7 @@ Section WithArith.
     call_forget e x h z = (r, x') ->
     (total x' <= total x) /\ (all_fp x -> all_fp x') /\ (rejected r -> x' = x).
   Proof.
-    unfold call_forget. intros H.
+    unfold call_forget. intros H. cbv beta zeta in H.
     destruct (get (e_self e) (c_accts x)) as [s |] eqn:G; [| inv_pair; split; [lia | split; [auto | reflexivity]]].
     destruct (al_get lk_eqb (h, z) (a_lookups s)) as [ts |] eqn:L; [| inv_pair; split; [lia | split; [auto | reflexivity]]].
     assert (Hdrop : forall p, all_fp x ->
